@@ -5,7 +5,15 @@ package lib
 // Rng is splitmix64; every random choice of a run derives from one VERIF_SEED.
 type Rng struct{ s uint64 }
 
-func NewRng(seed int64) *Rng { return &Rng{s: uint64(seed)*0x9E3779B97F4A7C15 + 0x1234567} }
+// NewRng scrambles the seed first, so that the streams of seeds k and k+1 are unrelated
+// (with a linear seeding they would be the same stream shifted by one draw).
+func NewRng(seed int64) *Rng {
+	z := uint64(seed) + 0x632BE59BD9B4E019
+	z = (z ^ (z >> 30)) * 0xBF58476D1CE4E5B9
+	z = (z ^ (z >> 27)) * 0x94D049BB133111EB
+	z ^= z >> 31
+	return &Rng{s: z}
+}
 
 func (r *Rng) U64() uint64 {
 	r.s += 0x9E3779B97F4A7C15
